@@ -151,6 +151,17 @@ class Ctx:
         hs = os.path.join(VERIF, "harness")
         out = os.path.join(self.scratch, "bin-%s-%s%s" % (cmd, "-".join(tags) or "notag", "-race" if race else ""))
         args = ["go", "build", "-o", out]
+        if REPO != "/repo":
+            # mutation testing against a scratch copy of the library (never used by the registered checks):
+            # same harness sources, module replaced by VERIF_REPO through an alternative go.mod
+            mf = os.path.join(self.scratch, "alt.mod")
+            if not os.path.exists(mf):
+                with open(os.path.join(hs, "go.mod")) as fh:
+                    txt = fh.read().replace("=> /repo", "=> " + REPO)
+                with open(mf, "w") as fh:
+                    fh.write(txt)
+                shutil.copy(os.path.join(hs, "go.sum"), os.path.join(self.scratch, "alt.sum"))
+            args += ["-modfile=" + mf]
         if tags:
             args += ["-tags", ",".join(tags)]
         if race:
